@@ -169,6 +169,9 @@ pub struct SelectSpec {
     pub hints: Vec<(u8, u8)>,
     /// Postgres TABLESAMPLE (bernoulli?, percentage, repeatable)
     pub sample: Option<(bool, u32, Option<u32>)>,
+    /// selects among equivalent public API entry points (and_where / and_where_option / cond_where, join() / left_join() ...)
+    #[serde(default)]
+    pub api: u8,
 }
 
 #[derive(Clone, Debug, PartialEq, Eq, Hash, Serialize, Deserialize)]
@@ -195,6 +198,8 @@ pub struct ConflictSpec {
     pub target_where: Option<E>,
     pub action: ConflictAction,
     pub action_where: Option<E>,
+    #[serde(default)]
+    pub api: u8,
 }
 
 #[derive(Clone, Debug, PartialEq, Eq, Hash, Serialize, Deserialize)]
@@ -218,6 +223,8 @@ pub struct InsertSpec {
     pub on_conflict: Option<ConflictSpec>,
     pub returning: Option<Returning>,
     pub with: Option<WithSpec>,
+    #[serde(default)]
+    pub api: u8,
 }
 
 #[derive(Clone, Debug, PartialEq, Eq, Hash, Serialize, Deserialize)]
@@ -230,6 +237,8 @@ pub struct UpdateSpec {
     pub limit: Option<u64>,
     pub returning: Option<Returning>,
     pub with: Option<WithSpec>,
+    #[serde(default)]
+    pub api: u8,
 }
 
 #[derive(Clone, Debug, PartialEq, Eq, Hash, Serialize, Deserialize)]
@@ -240,6 +249,8 @@ pub struct DeleteSpec {
     pub limit: Option<u64>,
     pub returning: Option<Returning>,
     pub with: Option<WithSpec>,
+    #[serde(default)]
+    pub api: u8,
 }
 
 #[derive(Clone, Debug, PartialEq, Eq, Hash, Serialize, Deserialize)]
@@ -259,6 +270,45 @@ fn frame_of(f: FrameB) -> Frame {
         FrameB::CurrentRow => Frame::CurrentRow,
         FrameB::Following(n) => Frame::Following(n),
         FrameB::UnboundedFollowing => Frame::UnboundedFollowing,
+    }
+}
+
+/// a condition group built through the `Cond` API (members that are groups nest)
+pub fn build_cond(e: &E, d: Dialect) -> Condition {
+    match e {
+        E::Cond { any, negate, members } => {
+            let mut c = if *any { Cond::any() } else { Cond::all() };
+            for m in members {
+                c = match m {
+                    E::Cond { .. } => c.add(build_cond(m, d)),
+                    other => c.add(other.build(d)),
+                };
+            }
+            if *negate {
+                c = c.not();
+            }
+            c
+        }
+        other => Cond::all().add(other.build(d)),
+    }
+}
+
+/// add one WHERE condition through one of the equivalent entry points
+fn add_where<S: ConditionalStatement>(q: &mut S, e: &E, d: Dialect, k: u8) {
+    if matches!(e, E::Cond { .. }) {
+        q.cond_where(build_cond(e, d));
+        return;
+    }
+    match k % 3 {
+        0 => {
+            q.and_where(e.build(d));
+        }
+        1 => {
+            q.and_where_option(Some(e.build(d)));
+        }
+        _ => {
+            q.cond_where(e.build(d));
+        }
     }
 }
 
@@ -395,7 +445,20 @@ pub fn build_select(s: &SelectSpec, d: Dialect) -> SelectStatement {
         };
         match &j.src {
             FromSpec::Table(..) | FromSpec::Cte(..) => {
-                q.join(kind, table_ref(&j.src).unwrap(), j.on.build(d));
+                let t = table_ref(&j.src).unwrap();
+                let on = build_cond(&j.on, d);
+                if s.api % 2 == 0 {
+                    q.join(kind, t, on);
+                } else {
+                    match j.kind {
+                        JoinKind::Left => q.left_join(t, on),
+                        JoinKind::Right => q.right_join(t, on),
+                        JoinKind::Inner => q.inner_join(t, on),
+                        JoinKind::FullOuter => q.full_outer_join(t, on),
+                        JoinKind::Cross => q.cross_join(t, on),
+                        JoinKind::Join => q.join(kind, t, on),
+                    };
+                }
             }
             FromSpec::Sub(sub, a) => {
                 if j.lateral {
@@ -407,14 +470,20 @@ pub fn build_select(s: &SelectSpec, d: Dialect) -> SelectStatement {
             FromSpec::Values(..) => {}
         }
     }
-    for w in &s.wheres {
-        q.and_where(w.build(d));
+    for (i, w) in s.wheres.iter().enumerate() {
+        add_where(&mut q, w, d, s.api.wrapping_add(i as u8));
     }
     for g in &s.groups {
         q.add_group_by([g.build(d)]);
     }
-    for h in &s.havings {
-        q.and_having(h.build(d));
+    for (i, h) in s.havings.iter().enumerate() {
+        if matches!(h, E::Cond { .. }) {
+            q.cond_having(build_cond(h, d));
+        } else if s.api.wrapping_add(i as u8) % 2 == 0 {
+            q.and_having(h.build(d));
+        } else {
+            q.cond_having(h.build(d));
+        }
     }
     for (u, sub) in &s.unions {
         let ut = match u {
@@ -470,6 +539,7 @@ pub fn build_select(s: &SelectSpec, d: Dialect) -> SelectStatement {
 }
 
 fn build_returning(r: &Returning, d: Dialect) -> ReturningClause {
+    // Query::returning() builder; the statement-level shortcuts returning_all / returning_col are exercised by callers
     match r {
         Returning::All => Query::returning().all(),
         Returning::Cols(c) => Query::returning().columns(c.iter().map(|i| al(T3COLS[*i as usize % 6])).collect::<Vec<_>>()),
@@ -480,7 +550,11 @@ fn build_returning(r: &Returning, d: Dialect) -> ReturningClause {
 pub fn build_conflict(c: &ConflictSpec, d: Dialect) -> OnConflict {
     let mut oc = if c.targets.is_empty() { OnConflict::new() } else { OnConflict::columns(c.targets.iter().map(|t| al(T3COLS[*t as usize % 6])).collect::<Vec<_>>()) };
     if let Some(w) = &c.target_where {
-        oc.target_and_where(w.build(d));
+        match c.api % 3 {
+            0 => oc.target_and_where(w.build(d)),
+            1 => oc.target_and_where_option(Some(w.build(d))),
+            _ => oc.target_cond_where(build_cond(w, d)),
+        };
     }
     match &c.action {
         ConflictAction::DoNothing => {
@@ -499,7 +573,11 @@ pub fn build_conflict(c: &ConflictSpec, d: Dialect) -> OnConflict {
         }
     }
     if let Some(w) = &c.action_where {
-        oc.action_and_where(w.build(d));
+        match (c.api / 3) % 3 {
+            0 => oc.action_and_where(w.build(d)),
+            1 => oc.action_and_where_option(Some(w.build(d))),
+            _ => oc.action_cond_where(build_cond(w, d)),
+        };
     }
     oc
 }
@@ -513,8 +591,20 @@ pub fn build_insert(s: &InsertSpec, d: Dialect) -> InsertStatement {
     q.columns(s.columns.iter().map(|c| al(T3COLS[*c as usize % 6])).collect::<Vec<_>>());
     match &s.source {
         InsertSource::Values(rows) => {
-            for r in rows {
-                q.values_panic(r.iter().map(|e| e.build(d)).collect::<Vec<_>>());
+            match s.api % 3 {
+                0 => {
+                    for r in rows {
+                        q.values_panic(r.iter().map(|e| e.build(d)).collect::<Vec<_>>());
+                    }
+                }
+                1 => {
+                    for r in rows {
+                        q.values(r.iter().map(|e| e.build(d)).collect::<Vec<_>>()).expect("generator keeps the arity");
+                    }
+                }
+                _ => {
+                    q.values_from_panic(rows.iter().map(|r| r.iter().map(|e| e.build(d)).collect::<Vec<_>>()));
+                }
             }
         }
         InsertSource::Select(sel) => {
@@ -539,16 +629,20 @@ pub fn build_insert(s: &InsertSpec, d: Dialect) -> InsertStatement {
 pub fn build_update(s: &UpdateSpec, d: Dialect) -> UpdateStatement {
     let mut q = Query::update();
     q.table(al(TABLES[s.table as usize % 3]));
-    for (c, e) in &s.sets {
-        q.value(al(T3COLS[*c as usize % 6]), e.build(d));
+    if s.api % 2 == 0 {
+        for (c, e) in &s.sets {
+            q.value(al(T3COLS[*c as usize % 6]), e.build(d));
+        }
+    } else {
+        q.values(s.sets.iter().map(|(c, e)| (al(T3COLS[*c as usize % 6]), e.build(d))).collect::<Vec<_>>());
     }
     for f in &s.from {
         if let Some(t) = table_ref(f) {
             q.from(t);
         }
     }
-    for w in &s.wheres {
-        q.and_where(w.build(d));
+    for (i, w) in s.wheres.iter().enumerate() {
+        add_where(&mut q, w, d, s.api.wrapping_add(i as u8));
     }
     for o in &s.orders {
         add_order(&mut q, o, d);
@@ -556,8 +650,17 @@ pub fn build_update(s: &UpdateSpec, d: Dialect) -> UpdateStatement {
     if let Some(l) = s.limit {
         q.limit(l);
     }
-    if let Some(r) = &s.returning {
-        q.returning(build_returning(r, d));
+    match (&s.returning, s.api % 2) {
+        (Some(Returning::All), 1) => {
+            q.returning_all();
+        }
+        (Some(Returning::Cols(c)), 1) if c.len() == 1 => {
+            q.returning_col(al(T3COLS[c[0] as usize % 6]));
+        }
+        (Some(r), _) => {
+            q.returning(build_returning(r, d));
+        }
+        (None, _) => {}
     }
     if let Some(w) = &s.with {
         q.with_cte(build_with(w, d));
@@ -568,8 +671,8 @@ pub fn build_update(s: &UpdateSpec, d: Dialect) -> UpdateStatement {
 pub fn build_delete(s: &DeleteSpec, d: Dialect) -> DeleteStatement {
     let mut q = Query::delete();
     q.from_table(al(TABLES[s.table as usize % 3]));
-    for w in &s.wheres {
-        q.and_where(w.build(d));
+    for (i, w) in s.wheres.iter().enumerate() {
+        add_where(&mut q, w, d, s.api.wrapping_add(i as u8));
     }
     for o in &s.orders {
         add_order(&mut q, o, d);
@@ -577,8 +680,17 @@ pub fn build_delete(s: &DeleteSpec, d: Dialect) -> DeleteStatement {
     if let Some(l) = s.limit {
         q.limit(l);
     }
-    if let Some(r) = &s.returning {
-        q.returning(build_returning(r, d));
+    match (&s.returning, s.api % 2) {
+        (Some(Returning::All), 1) => {
+            q.returning_all();
+        }
+        (Some(Returning::Cols(c)), 1) if c.len() == 1 => {
+            q.returning_col(al(T3COLS[c[0] as usize % 6]));
+        }
+        (Some(r), _) => {
+            q.returning(build_returning(r, d));
+        }
+        (None, _) => {}
     }
     if let Some(w) = &s.with {
         q.with_cte(build_with(w, d));
